@@ -9,10 +9,11 @@
     3. [validate_eq]: [validate_model q pi (verase S F) G D = validate_model q pi S F D].
 
     The spread rule needs that getPossibleTypes of a visible type lists the same types on both
-    sides.  C04's [possible_types] has no feature filter yet, so this is the section hypothesis
-    [PT]; [possible_types_no_gated_impls] discharges it for schemas in which no implementation
-    listed for a visible interface is gated — with the filter in place it holds for every [vok]
-    schema (the argument of FeaturesProofs.ask_erase, QPossibleV) and the hypothesis disappears. *)
+    sides: the section hypothesis [PT].  With the feature filter in C04's model ([q_impl_features],
+    on in [repaired]) it is a lemma, [possible_types_repaired], and [validate_eq_repaired] has no such
+    hypothesis; for the pinned behaviour (filter off) it holds exactly when no implementation listed
+    for a visible interface is gated ([validate_eq_no_gated_impls]) and fails otherwise
+    ([FeaturesVld.spreads_refuted_before_fix]). *)
 From Coq Require Import List NArith Bool String Lia.
 From ApiFu Require Import Base.Sexp Vld.Ast Vld.AstInd Vld.Inspect Vld.InspectProofs Vld.TypeInfoModel
   Vld.ValidatorModel Vld.ProofsCommon Feat.FeaturesVld.
@@ -841,22 +842,23 @@ Section Rules.
   Qed.
 
   (** ** validateFragmentSpreads, given that getPossibleTypes of a visible type answers alike *)
-  Hypothesis PT : forall tn, alive tn = true -> possible_types E tn = possible_types S tn.
+  Variable q0 : quirks.
+  Hypothesis PT : forall tn, alive tn = true -> possible_types q0 E G tn = possible_types q0 S F tn.
 
-  Lemma validate_spread_erase q st tc parent :
-    vsc parent -> validate_spread q pi E G st tc parent = validate_spread q pi S F st tc parent.
+  Lemma validate_spread_erase st tc parent :
+    vsc parent -> validate_spread q0 pi E G st tc parent = validate_spread q0 pi S F st tc parent.
   Proof.
     intro V. unfold validate_spread. destruct parent as [pn|]; [|reflexivity]. simpl in V.
     rewrite (is_composite_name_erase pn (or_introl V)).
-    destruct (q_leaf_parent q && negb (is_composite_name S pn)); [reflexivity|].
+    destruct (q_leaf_parent q0 && negb (is_composite_name S pn)); [reflexivity|].
     rewrite (named_type_erase S F G Hok HFG). destruct (named_type S F (fst tc)) as [b|] eqn:NT; cbn [option_map]; [|reflexivity].
     replace (is_composite_body (verase_body alive F b)) with (is_composite_body b) by (destruct b; reflexivity).
     destruct (is_composite_body b); [|reflexivity].
     rewrite (PT (fst tc) (named_type_visible S F _ _ NT)), (PT pn V). reflexivity.
   Qed.
 
-  Lemma spreads_enter_erase q A st n :
-    stack_ok st -> wa_node n -> spreads_enter q pi E G A st n = spreads_enter q pi S F A st n.
+  Lemma spreads_enter_erase A st n :
+    stack_ok st -> wa_node n -> spreads_enter q0 pi E G A st n = spreads_enter q0 pi S F A st n.
   Proof.
     intros Hst Hn. unfold stack_ok in Hst. destruct n as [| | | | | | | ss | s | | |]; try reflexivity.
     destruct s as [a al fname np args dirs sub | fname np dirs e | cond dirs sub e]; try reflexivity; unfold spreads_enter.
@@ -897,8 +899,8 @@ Section Rules.
     forall st, r_stack (fold_left f l st) = r_stack st.
   Proof. intro H. induction l as [|a r IH]; intro st; [reflexivity|]. cbn [fold_left]. rewrite IH. apply H. Qed.
 
-  Theorem rule_spreads_erase q A : ok (tree_doc A) ->
-    rule_fragment_spreads q pi E G A = rule_fragment_spreads q pi S F A.
+  Theorem rule_spreads_erase A : ok (tree_doc A) ->
+    rule_fragment_spreads q0 pi E G A = rule_fragment_spreads q0 pi S F A.
   Proof.
     intro HA. unfold rule_fragment_spreads. cbv zeta.
     match goal with |- finish (inspect _ _ _ ?x0) = _ => set (st1 := x0) end.
@@ -906,45 +908,52 @@ Section Rules.
     { unfold stack_ok, st1. rewrite fold_stack; [constructor|].
       intros st a. destruct (cycle_search pi A (graph_fuel A) a [a] []) as [[|]|]; try reflexivity.
       destruct (frag_last A a); reflexivity. }
-    destruct (inspect_ext_inv stack_ok wa_node (spreads_enter q pi E G A) (spreads_enter q pi S F A) pop
-                (spreads_enter_erase q A) (spreads_enter_stack q A) pop_stack (tree_doc A) HA st1 I1) as [E1 _].
+    destruct (inspect_ext_inv stack_ok wa_node (spreads_enter q0 pi E G A) (spreads_enter q0 pi S F A) pop
+                (spreads_enter_erase A) (spreads_enter_stack q0 A) pop_stack (tree_doc A) HA st1 I1) as [E1 _].
     rewrite E1. reflexivity.
   Qed.
 
   (** ** ValidateDocument *)
-  Theorem validate_eq q D : validate_model q pi E G D = validate_model q pi S F D.
+  Theorem validate_eq D : validate_model q0 pi E G D = validate_model q0 pi S F D.
   Proof.
     unfold validate_model. rewrite (type_info_erase S F G Hok HFG).
-    destruct (type_info (q_unwrap_obj q) S F D) as [A|] eqn:TI; [|reflexivity].
-    pose proof (type_info_nodes_ok (q_unwrap_obj q) D A TI) as HA.
-    assert (R : all_rules q pi E G A = all_rules q pi S F A).
+    destruct (type_info (q_unwrap_obj q0) S F D) as [A|] eqn:TI; [|reflexivity].
+    pose proof (type_info_nodes_ok (q_unwrap_obj q0) D A TI) as HA.
+    assert (R : all_rules q0 pi E G A = all_rules q0 pi S F A).
     { unfold all_rules, rule_fragments.
-      destruct (rules_small_erase S F G Hok HFG q pi A) as [R1 [R2 R3]].
-      rewrite (rule_fields_erase q A HA), R2, R1, (rule_spreads_erase q A HA), (rule_values_erase q A HA), R3,
-              (rule_variables_erase S F G Hok HFG (q_unwrap_obj q) pi D A TI).
+      destruct (rules_small_erase S F G Hok HFG q0 pi A) as [R1 [R2 R3]].
+      rewrite (rule_fields_erase q0 A HA), R2, R1, (rule_spreads_erase A HA), (rule_values_erase q0 A HA), R3,
+              (rule_variables_erase S F G Hok HFG (q_unwrap_obj q0) pi D A TI).
       reflexivity. }
     rewrite R. reflexivity.
   Qed.
 End Rules.
 
-(** ** discharging [PT] on C04's model as it stands: no implementation listed for an interface the
-    request may see is gated (and [s_impls] lists every interface once) *)
-Definition impls_visible (S : schema) (F : features) : Prop :=
-  forall i l, assoc i (s_impls S) = Some l -> vvisible S F i = true -> forall o, In o l -> vvisible S F o = true.
+(** ** discharging [PT] *)
 
-Lemma possible_types_no_gated_impls S F :
-  vok S = true -> vnodup (map fst (s_impls S)) = true -> impls_visible S F ->
-  forall tn, vvisible S F tn = true -> possible_types (verase S F) tn = possible_types S tn.
+(** with the feature filter of the repaired getPossibleTypes in C04's model ([q_impl_features]) *)
+Lemma possible_types_repaired S F G q :
+  vok S = true -> subset F G = true -> q_impl_features q = true ->
+  forall tn, vvisible S F tn = true -> possible_types q (verase S F) G tn = possible_types q S F tn.
 Proof.
-  intros Hok Hnd HI tn V. unfold possible_types. rewrite (raw_body_erase S F Hok tn V).
+  intros Hok HFG Hq tn V. unfold possible_types. rewrite (raw_body_erase S F Hok tn V).
   destruct (alive_inv S F tn V) as [d [L R]]. unfold raw_body. rewrite L. cbn [option_map].
+  destruct (impls_rule S Hok) as [Hnd Hreg].
   destruct (t_body d) as [k | vals | ifs | fields ifs | fields | ms] eqn:B; cbn [verase_body]; try reflexivity.
   - (* interface *)
-    f_equal. unfold verase. cbn [s_impls].
+    f_equal. unfold verase at 2. cbn [s_impls].
     rewrite (vassoc_map (filter (vvisible S F)) tn).
     rewrite (vassoc_filter (fun il => vvisible S F (fst il))) by exact Hnd.
     destruct (assoc tn (s_impls S)) as [l|] eqn:A; [|reflexivity]. cbn [fst]. rewrite V. cbn [option_map].
-    apply filter_all. intros o Ho. apply (HI tn l A V o Ho).
+    assert (Hl : forall o, In o l -> exists dl, raw_type S o = Some dl).
+    { intros o Ho. rewrite forallb_forall in Hreg. specialize (Hreg (tn, l) (vassoc_In _ _ _ A)). cbn [snd] in Hreg.
+      rewrite forallb_forall in Hreg. specialize (Hreg o Ho). destruct (raw_type S o) as [dl|]; [eauto | discriminate]. }
+    rewrite (filter_all (impl_visible q (verase S F) G) (filter (vvisible S F) l)).
+    + apply filter_ext_in. intros o Ho. destruct (Hl o Ho) as [dl Lo].
+      unfold impl_visible, vvisible. rewrite Hq, Lo. reflexivity.
+    + intros o Ho. apply filter_In in Ho as [Ho Vo]. unfold impl_visible. rewrite Hq.
+      rewrite (raw_type_erase S F Hok o). destruct (Hl o Ho) as [dl Lo]. rewrite Lo.
+      unfold vvisible in Vo. rewrite Lo in Vo. rewrite Vo. cbn [verase_def t_req]. eapply subset_trans; eauto.
   - (* union: the members of a visible union are visible *)
     f_equal. apply filter_all. intros m Hm.
     pose proof (type_ok_of S Hok tn d L) as T. unfold vtype_ok in T. rewrite B in T.
@@ -952,11 +961,45 @@ Proof.
     destruct (raw_type S m) as [dm|]; [|discriminate]. eapply subset_trans; eauto.
 Qed.
 
-Theorem validate_eq_no_gated_impls S F G pi q D :
-  vok S = true -> subset F G = true -> order_ok pi ->
-  vnodup (map fst (s_impls S)) = true -> impls_visible S F ->
+(** ValidateDocument of the repaired validator: the same verdict on (S, F) and on the erased schema *)
+Theorem validate_eq_repaired S F G pi q D :
+  vok S = true -> subset F G = true -> order_ok pi -> q_impl_features q = true ->
   validate_model q pi (verase S F) G D = validate_model q pi S F D.
 Proof.
-  intros Hok HFG Hpi Hnd HI.
-  apply (validate_eq S F G Hok HFG pi Hpi (possible_types_no_gated_impls S F Hok Hnd HI)).
+  intros Hok HFG Hpi Hq.
+  apply (validate_eq S F G Hok HFG pi Hpi q (possible_types_repaired S F G q Hok HFG Hq)).
+Qed.
+
+(** without the filter (the pinned getPossibleTypes, [q_impl_features] off) the equation holds exactly
+    as far as no implementation listed for an interface the request may see is gated *)
+Definition impls_visible (S : schema) (F : features) : Prop :=
+  forall i l, assoc i (s_impls S) = Some l -> vvisible S F i = true -> forall o, In o l -> vvisible S F o = true.
+
+Lemma possible_types_no_gated_impls S F G q :
+  vok S = true -> subset F G = true -> q_impl_features q = false -> impls_visible S F ->
+  forall tn, vvisible S F tn = true -> possible_types q (verase S F) G tn = possible_types q S F tn.
+Proof.
+  intros Hok HFG Hq HI tn V. unfold possible_types. rewrite (raw_body_erase S F Hok tn V).
+  destruct (alive_inv S F tn V) as [d [L R]]. unfold raw_body. rewrite L. cbn [option_map].
+  destruct (impls_rule S Hok) as [Hnd _].
+  assert (Hall : forall (S0 : schema) (F0 : features) l, filter (impl_visible q S0 F0) l = l).
+  { intros S0 F0 l. apply filter_all. intros o _. unfold impl_visible. rewrite Hq. reflexivity. }
+  destruct (t_body d) as [k | vals | ifs | fields ifs | fields | ms] eqn:B; cbn [verase_body]; try reflexivity.
+  - f_equal. rewrite !Hall. unfold verase. cbn [s_impls].
+    rewrite (vassoc_map (filter (vvisible S F)) tn).
+    rewrite (vassoc_filter (fun il => vvisible S F (fst il))) by exact Hnd.
+    destruct (assoc tn (s_impls S)) as [l|] eqn:A; [|reflexivity]. cbn [fst]. rewrite V. cbn [option_map].
+    apply filter_all. intros o Ho. apply (HI tn l A V o Ho).
+  - f_equal. apply filter_all. intros m Hm.
+    pose proof (type_ok_of S Hok tn d L) as T. unfold vtype_ok in T. rewrite B in T.
+    rewrite forallb_forall in T. specialize (T m Hm). unfold req_of in T. unfold vvisible.
+    destruct (raw_type S m) as [dm|]; [|discriminate]. eapply subset_trans; eauto.
+Qed.
+
+Theorem validate_eq_no_gated_impls S F G pi q D :
+  vok S = true -> subset F G = true -> order_ok pi -> q_impl_features q = false -> impls_visible S F ->
+  validate_model q pi (verase S F) G D = validate_model q pi S F D.
+Proof.
+  intros Hok HFG Hpi Hq HI.
+  apply (validate_eq S F G Hok HFG pi Hpi q (possible_types_no_gated_impls S F G q Hok HFG Hq HI)).
 Qed.
